@@ -1268,6 +1268,13 @@ class FnTypes:
                     ga = c.lookup("__getattr__")
                     if ga is not None and self.attr_unknown(c, name) and ga not in out:
                         out.append(ga)
+                elif not name.startswith("_"):
+                    # the name exists on some classes of the hierarchy only: an instance of a subclass without it falls
+                    # back to that subclass's __getattr__ (Schema.short_help creates a field called 'short_help')
+                    for k in c.subclasses(strict=True):
+                        ga = k.lookup("__getattr__")
+                        if ga is not None and self.attr_unknown(k, name) and ga not in out:
+                            out.append(ga)
         return out
 
     def attr_unknown(self, c: ClassInfo, name: str) -> bool:
